@@ -1233,7 +1233,7 @@ func ruleC17Dep(c *Checker) {
 				}
 				return
 			case *ssa.BinOp:
-				if x.Op != token.EQL {
+				if x.Op != token.EQL && x.Op != token.NEQ {
 					return
 				}
 				if n, ok := types.Unalias(x.X.Type()).(*types.Named); !ok || n.Obj().Name() != "Version" {
@@ -1261,17 +1261,33 @@ func ruleC17Dep(c *Checker) {
 					}
 				}
 			}
-			t, _ := boolEdges(member, cond)
-			for _, e := range t {
-				for _, x := range e.To().Instrs {
-					if fa, ok := x.(*ssa.FieldAddr); ok && fieldOf(fa).Name() == "Deprecation" {
-						for _, vb := range verBases {
-							if canon(fa.X) == vb {
-								depOK = true
-							}
+			t, f := boolEdges(member, cond)
+			if bo, isBo := cond.(*ssa.BinOp); isBo && bo.Op == token.NEQ {
+				t = f // `if selected != v.Version { continue }`: the equal edge is the false one
+			}
+			// the element's Deprecation is read behind the equal edge (in the block it leads to, or anywhere
+			// only that edge leads to)
+			if len(t) > 0 {
+				eachInstr(member, func(x ssa.Instruction) {
+					fa, ok := x.(*ssa.FieldAddr)
+					if !ok || fieldOf(fa) == nil || fieldOf(fa).Name() != "Deprecation" {
+						return
+					}
+					onEdgeTarget := false
+					for _, e := range t {
+						if e.To() == fa.Block() {
+							onEdgeTarget = true
 						}
 					}
-				}
+					if !onEdgeTarget && !guarded(fa.Block(), t) {
+						return
+					}
+					for _, vb := range verBases {
+						if canon(fa.X) == vb {
+							depOK = true
+						}
+					}
+				})
 			}
 		})
 		// the infos searched are the registry's answer on the fresh path and its cached copy on the hit path
